@@ -40,7 +40,7 @@ package workceptor
 //@     invariant COPYING: [C19] fresh(edCopy.RemoteParams) && edCopy.RemoteParams != nil && framemap(edCopy.RemoteParams) && fresh(status) && status != nil
 //@     invariant SOFAR: [C19] forall k string :: (k in edCopy.RemoteParams) ==> (k in ed.RemoteParams) && edCopy.RemoteParams[k] == ed.RemoteParams[k]
 //@     invariant DONE: [C19] forall k string :: visited(k) ==> (k in edCopy.RemoteParams)
-//@   ensures ALLPARAMS: [C19] typeis(result.ExtraData, "*RemoteExtraData") && ok ==> forall k string :: (k in ed.RemoteParams) ==> (k in unbox(result.ExtraData, "*RemoteExtraData").RemoteParams) && unbox(result.ExtraData, "*RemoteExtraData").RemoteParams[k] == ed.RemoteParams[k]
+//@   atrelease ALLPARAMS: [C19] typeis(result.ExtraData, "*RemoteExtraData") && ok ==> forall k string :: (k in ed.RemoteParams) ==> (k in unbox(result.ExtraData, "*RemoteExtraData").RemoteParams) && unbox(result.ExtraData, "*RemoteExtraData").RemoteParams[k] == ed.RemoteParams[k]
 //@   ensures FRESH: result != nil && fresh(result)
 //@   ensures COPY: typeis(result.ExtraData, "*RemoteExtraData") ==> unbox(result.ExtraData, "*RemoteExtraData") != nil && fresh(unbox(result.ExtraData, "*RemoteExtraData")) && fresh(unbox(result.ExtraData, "*RemoteExtraData").RemoteParams) && unbox(result.ExtraData, "*RemoteExtraData").RemoteParams != nil
 
